@@ -32,6 +32,7 @@ ASSUMPTIONS = [
     "keypoints in general position (fixed non-dyadic fractional parts); scene geometry scaled to the coarsest cell of the chain (resolution rule, DESIGN C02); configurations whose geometry cannot satisfy the rule are counted as skipped_infeasible, not as violations",
     "configurations in which a resampling stage would produce a non-integer target size are the domain of known finding K4 (truncating resize, C04) and are counted as skipped_k4_domain; scenes grow by an integer factor so that eff_scale is preserved",
     "tolerance = half an output-stride cell mapped back to the original frame plus the resampling phase the ideal network cannot see through: half a model-input pixel, or 0.5*|s_total-1| input px when the total up-scaling exceeds 2 (the half-pixel convention of known finding K4), plus 0.06 input px for the ideal network's own sub-pixel localisation accuracy",
+    "single-instance 'mixed' runs: a label file over two videos of sizes (64,96) and (32,48) size-matched to (64,96), frames alternating, so batch-mates have different eff_scale",
     "top-down scenes: the animal count grows from frame 0 to frame 1; with batch 3 and the video reader a frame without any animal is also placed first (thorough: also between the two) in the batch and must yield no record while the other frames keep theirs",
     "top-down crops: square, and (crop, crop+16) / (crop+16, crop) non-square crops on a sub-grid (label reader, batch 3, centroid scale 1 in quick; all label-reader cases in thorough)",
     "grid values: see bounds; other values are outside the bound",
@@ -152,6 +153,57 @@ def run_single(case, tmp):
         if f not in lab or not np.allclose(lab[f], got[f][0], atol=1e-4, equal_nan=True):
             return f"make_labels=True gives {lab.get(f)} for frame {f} but the raw output is {got[f][0].tolist()}", None
     return None, {"worst_err_over_tol": round(worst, 3), "obs": [np.round(got[f][0], 3).tolist() for f in range(3)]}
+
+
+def run_single_mixed(case, tmp):
+    """Single-instance model on a label file over two videos of different frame sizes ((H,W) and (H/2,W/2)), size-matched
+    to (H,W): consecutive frames of one batch have different eff_scale (1 and 2); each frame must come back in ITS OWN
+    original coordinates."""
+    H, W = case["hw"]
+    scale, stride = case["scale"], case["stride"]
+    sizes = [(H, W), (H // 2, W // 2), (H, W), (H // 2, W // 2)]
+    sk = S.make_skeleton(3)
+    frames, truth, tols = [], [], []
+    for f, (h, w) in enumerate(sizes):
+        eff = eff_scale_of(h, w, H, W)
+        if not k4_free(h, w, H, W, [scale]):
+            return "infeasible-k4", None
+        r = max(3.0, 3.0 / (scale * eff))
+        margin = (2.5 * stride / (scale * eff) + 1.0) if case["refinement"] == "integral" else 0.0
+        if 2 * max(r + 4, margin) + 3 * r > min(h, w):
+            return "infeasible", None
+        pts = single_layout(h, w, r, (case["layout"] + f) % 2, margin)
+        frames.append({"image": S.render(h, w, [pts], radius=r), "instances": [pts], "video": f % 2})
+        truth.append(pts)
+        tols.append((0.5 * stride + phase_allowance(scale * eff) + LOCATOR_SLACK) / (scale * eff) + 1e-3)
+    slp = S.write_labels(tmp, frames, sk, name="sm", embed=True)
+    pred = I.single_predictor(3, scale, case["max_stride"], stride, 1.5, (H, W), case["refinement"], case["batch"], sk)
+    outs = I.run_predictor(pred, "LabelsReader", slp, make_labels=False)
+    got = {}
+    for o in outs:
+        for vi, fi, pk, pv in zip(o["video_idx"], o["frame_idx"], o["pred_instance_peaks"], o["pred_peak_values"]):
+            key = (int(vi), int(fi))
+            if key in got:
+                return f"(video, frame) {key} reported twice", None
+            got[key] = (np.asarray(pk, dtype=np.float64), np.asarray(pv, dtype=np.float64))
+    want = [(f % 2, f // 2) for f in range(4)]
+    if sorted(got) != sorted(want):
+        return f"(video, frame) pairs reported {sorted(got)} != {sorted(want)}", None
+    worst = 0.0
+    for f in range(4):
+        pk, pv = got[want[f]]
+        for k in range(3):
+            if np.isnan(truth[f][k]).any():
+                if not np.isnan(pk[k]).all() or pv[k] != 0:
+                    return f"frame {f} node {k} is invisible but reported at {pk[k].tolist()} with value {pv[k]}", None
+            else:
+                if np.isnan(pk[k]).any():
+                    return f"frame {f} ({sizes[f][0]}x{sizes[f][1]}) node {k} at {truth[f][k].tolist()} was not detected", None
+                err = float(np.abs(pk[k] - truth[f][k]).max())
+                worst = max(worst, err / tols[f])
+                if err > tols[f]:
+                    return f"frame {f} ({sizes[f][0]}x{sizes[f][1]}) node {k}: reported {pk[k].tolist()} vs true {truth[f][k].tolist()} (error {err:.2f} px > tolerance {tols[f]:.2f})", None
+    return None, {"worst_err_over_tol": round(worst, 3), "obs": [np.round(got[want[f]][0], 3).tolist() for f in range(4)]}
 
 
 # ---------------------------------------------------------------------------
@@ -281,6 +333,9 @@ def grid(tier):
         scales, mstr, strides, refs, batches, layouts = [1.0, 0.5, 0.75, 2.0], [8, 16], [1, 2, 4], [None, "integral"], [1, 3], [0, 1]
     for hw, mx, sc, ms, st, rf, b, prov, lay in itertools.product(hws, maxs, scales, mstr, strides, refs, batches, ["LabelsReader", "VideoReader"], layouts):
         cases.append({"model": "single", "hw": list(hw), "max_hw": list(mx), "scale": sc, "max_stride": ms, "stride": st, "refinement": rf, "batch": b, "provider": prov, "layout": lay})
+    # label files over two videos of different frame sizes (batch-mates with different eff_scale)
+    for sc, st, rf, b, lay in itertools.product([1.0, 0.5], [2, 4], [None, "integral"], [1, 3], [0, 1]):
+        cases.append({"model": "single", "hw": [64, 96], "max_hw": [64, 96], "scale": sc, "max_stride": 16, "stride": st, "refinement": rf, "batch": b, "provider": "LabelsReader", "layout": lay, "mixed": True})
     if tier == "quick":
         hws, maxs = [(64, 96)], [(None, None), (96, 160)]  # (96,160): eff_scale 1.5 + right padding
         cs, iscs, spairs, crops, refs, batches = [1.0, 0.5], [1.0, 0.5], [(2, 2), (4, 2), (2, 4)], [32], [None, "integral"], [1, 3]
@@ -331,7 +386,7 @@ def execute(case):
     tmp = tempfile.mkdtemp(prefix="verif_c02_")
     try:
         if case["model"] == "single":
-            return run_single(case, tmp)
+            return run_single_mixed(case, tmp) if case.get("mixed") else run_single(case, tmp)
         return run_topdown(case, tmp)
     finally:
         shutil.rmtree(tmp, ignore_errors=True)
